@@ -95,7 +95,7 @@ def execute(case):
         for i in range(1, n):
             us[i].equals(2 * us[i - 1])
         a, b = 1 * us[-1], 1 * us[0]
-        return {"pairs": [{"shape": f"chain>={400 if n >= 400 else 0}", "determined": True, "label": f"chain of {n}",
+        return {"pairs": [{"shape": "chain>=900" if n >= 900 else "chain<900", "determined": True, "label": f"chain of {n}",
                            "ops": ops_on(a, b, us[0])}]}
     return {"invalid": True}
 
